@@ -357,7 +357,10 @@ class AsyncHTTP2Connection(AsyncConnectionInterface):
         return event
 
     async def _receive_events(
-        self, request: Request, stream_id: int | None = None
+        self,
+        request: Request,
+        stream_id: int | None = None,
+        flow_control_stream_id: int | None = None,
     ) -> None:
         """
         Read some data from the network until we see one or more events
@@ -377,7 +380,16 @@ class AsyncHTTP2Connection(AsyncConnectionInterface):
             # because when we call it from `_wait_for_outgoing_flow` we *do* want to
             # block until we've available flow control, event when we have events
             # pending for the stream ID we're attempting to send on.
-            if stream_id is None or not self._events.get(stream_id):
+            if flow_control_stream_id is not None:
+                # Another flow of control may already have received the window
+                # update that we are waiting for, while we were waiting to
+                # acquire the read lock. In which case we must not block on
+                # reading data that the server has no reason to send.
+                read_required = self._outgoing_flow(flow_control_stream_id) == 0
+            else:
+                read_required = stream_id is None or not self._events.get(stream_id)
+
+            if read_required:
                 events = await self._read_incoming_data(request)
                 for event in events:
                     if isinstance(event, h2.events.RemoteSettingsChanged):
@@ -549,15 +561,16 @@ class AsyncHTTP2Connection(AsyncConnectionInterface):
         WindowUpdated frames have increased the flow rate.
         https://tools.ietf.org/html/rfc7540#section-6.9
         """
+        flow = self._outgoing_flow(stream_id)
+        while flow == 0:
+            await self._receive_events(request, flow_control_stream_id=stream_id)
+            flow = self._outgoing_flow(stream_id)
+        return flow
+
+    def _outgoing_flow(self, stream_id: int) -> int:
         local_flow: int = self._h2_state.local_flow_control_window(stream_id)
         max_frame_size: int = self._h2_state.max_outbound_frame_size
-        flow = min(local_flow, max_frame_size)
-        while flow == 0:
-            await self._receive_events(request)
-            local_flow = self._h2_state.local_flow_control_window(stream_id)
-            max_frame_size = self._h2_state.max_outbound_frame_size
-            flow = min(local_flow, max_frame_size)
-        return flow
+        return min(local_flow, max_frame_size)
 
     # Interface for connection pooling...
 
